@@ -10,6 +10,8 @@ L ::= ("int",) | ("str",) | ("any",) | ("none",)
     | ("arrnode", cat, spec)       cat[NodeArr, spec] - NodeArr is an array-like that is ALSO a PyTree node
     | ("ntclass", [L...])          a typing.NamedTuple CLASS whose fields are annotated L1, L2, ...: a value matches when it
                                    is an instance and every field matches its annotation (bindings shared, as in a tuple)
+    | ("typevar", how, [L...])     a TypeVar bound to L1 (how="bound") or constrained to L1, L2 (how="constr"): stands for
+                                   its bound / the union of its constraints
     | ("pytree", L)                PyTree[L] (structure-less, nested)
     | ("spytree", L, name, n)      PyTree[L, name] (structured, nested); values are n-tuples of L, so that the
                                    structure bound to `name` is the same wherever it occurs
@@ -80,6 +82,10 @@ def build(L, cache=None):
         return typing.Optional[build(L[1])]
     if k == "arr":
         return getattr(jaxtyping, L[1])[np.ndarray, L[2]]
+    if k == "typevar":
+        if L[1] == "bound":
+            return typing.TypeVar("TLeafB", bound=build(L[2][0]))
+        return typing.TypeVar("TLeafC", *[build(x) for x in L[2]])
     if k == "ntclass":
         return nt_class(L)
     if k == "arrnode":
@@ -145,6 +151,8 @@ def matches(x, L, s, v, flatten, label=None, nested_struct=False):
             if not ok:
                 return False, s, v
         return True, s1, v1
+    if k == "typevar":
+        return matches(x, L[2][0] if L[1] == "bound" else ("union", L[2]), s, v, flatten, label)
     if k in ("union", "pep604"):
         for alt in L[1]:
             ok, s1, v1 = matches(x, alt, s, v, flatten, label)
@@ -222,6 +230,8 @@ def matches(x, L, s, v, flatten, label=None, nested_struct=False):
 def has_array(L):
     if L[0] in ("arr", "arrnest", "arrnode"):
         return True
+    if L[0] == "typevar":
+        return any(has_array(x) for x in L[2])
     if L[0] in ("tuple", "union", "pep604", "ntclass"):
         return any(has_array(x) for x in L[1])
     if L[0] in ("optional", "pytree", "spytree"):
@@ -235,6 +245,8 @@ def show(L):
         return {"int": "int", "str": "str", "any": "Any", "none": "None"}[k]
     if k == "tuple":
         return "tuple[" + ", ".join(show(x) for x in L[1]) + "]"
+    if k == "typevar":
+        return f"TypeVar({L[1]}: " + ", ".join(show(x) for x in L[2]) + ")"
     if k == "ntclass":
         return "NamedTuple(" + ", ".join(show(x) for x in L[1]) + ")"
     if k == "union":
